@@ -106,6 +106,20 @@ def c16_jobs(tier, seed):
     return j
 
 
+def c15_jobs(tier, seed):
+    q = tier == "quick"
+    s = 15 if q else 150
+    j = []
+    j += shards("dbg", "w_contain", "c15", 3 if q else 4, s, seed)
+    j += shards("rel", "w_contain", "c15", 2 if q else 3, s, seed, first=10)
+    j += shards("asan", "w_contain", "c15", 2, s, seed, first=20)
+    j += [Job("miri", "w_contain", "c15 --seed %d --shard %d --secs %d" % (seed, 100 + i, s), timeout=s * 3 + 300, miri_flags=M1, engine="miri-full") for i in range(2 if q else 6)]
+    j += shards("dbg", "w_ports", "c15g --svc local", 2, s, seed, first=30)
+    j += shards("dbg", "w_ports", "c15g --svc ipc", 2, s, seed, first=40)
+    j += shards("asan", "w_ports", "c15g --svc local", 1 if q else 2, s, seed, first=50)
+    return j
+
+
 PROPS = {
     "C09": {
         "level": "exploration",
@@ -174,5 +188,12 @@ PROPS = {
         "rule": "differential execution against std models (VecDeque, BTreeMap slab, BTreeMap, Vec, Vec<u8>) after every operation with an element life table, for queue (heap/fixed, capacity 0-3), slot map (heap/fixed, 1-3), flat map (heap/fixed, 1-3), vector (static/polymorphic-heap, 0-3), static string (1-4): ALL operation sequences up to length 5 (quick) / 6 (thorough) over the per-container alphabet (bounded to 5 for vectors and 4 for the 19-letter string alphabet), plus random sequences of length up to 40; release build for the enumeration, debug/ASan for shorter boxes, Miri for length <= 2 plus random short ones. Non-trivial = a history of maximal enumerated length or a random one; distinct = distinct (target, history). exhaustive=true refers to exactly this (length, alphabet, capacity) box.",
         "assumptions": ["std containers are the reference semantics, capacity errors must leave the container unchanged", "String::retain removes the bytes for which the closure returns true (upstream test retain_works), the doc line of String::retain says the opposite"],
         "floor": (100000, 20),
+    },
+    "C15": {
+        "level": "exploration",
+        "jobs": c15_jobs,
+        "rule": "allocator level: random cases over a grid of awkward layouts (bucket size 1-72 incl. sizes that are not a multiple of the alignment, alignment 1-64, block start misaligned by 0-63, partial last bucket, compile-time bucket limit reached) for bb-memory PoolAllocator, bb-elementary BumpAllocator and OneChunkAllocator: allocate / deallocate / grow front+back / shrink with an allocation shadow (bounds, alignment, size, disjointness), pattern fill verified on release, guard bytes around the block, exhaustion probe after freeing everything; failing cases are shrunk (debug, release, ASan, Miri). Port level: publisher with slice payloads and BestFit/PowerOfTwo/Static strategy, subscribers holding samples across repeated segment growth on local and ipc services. Non-trivial = a case with two or more successful allocations / a history with a growth step while samples were held; distinct = distinct (allocator, layout, block, operations) / (config, events).",
+        "assumptions": ["cal shm allocators (pool/bump with offsets) are reached through the port-level growth scenario (data segments use them), not driven directly"],
+        "floor": (10000, 100),
     },
 }
